@@ -22,6 +22,7 @@ macro_rules! dispatch {
             "C06" => $f::<props::c06::C06>($($arg),*),
             "C07" => $f::<props::c07::C07>($($arg),*),
             "C14" => $f::<props::c14::C14>($($arg),*),
+            "C15" => $f::<props::c15::C15>($($arg),*),
             "C17" => $f::<props::c17::C17>($($arg),*),
             "C18" => $f::<props::c18::C18>($($arg),*),
             "C19" => $f::<props::c19::C19>($($arg),*),
